@@ -116,3 +116,54 @@ Example C24_example : muldiv_w 9223372036854775807 90000 nanos = 830103483316929
   /\ muldiv_w (-9223372036854775807) 90000 nanos = -830103483316929
   /\ muldiv_w 8301034833169 nanos 90000 = 92233720368544444.
 Proof. vm_compute. repeat split. Qed.
+
+(* ---------------- call-site layer: WHAT is converted (Model/C24_TsOut.v, Proofs/C24_TsOut.v) ---------------- *)
+Require Import MTX.Model.C24_TsOut MTX.Proofs.C24_TsOut.
+
+(* rate-to-rate calls (90000 and a clock rate; neither factor is time.Second, scale_ok does not hold for them):
+   exact for every int64 value whose exact result is representable *)
+Theorem C24_muldiv_exact_rates : forall v m d, scale_rates m d -> in_int64 v -> in_int64 (Z.quot (v * m) d) ->
+  muldiv_w v m d = Z.quot (v * m) d.
+Proof. exact muldiv_exact_rates. Qed.
+Print Assumptions C24_muldiv_exact_rates.
+
+(* the MPEG-TS writer path (mpegts.FromStream over the multiplyAndDivide translated from the sources on this run): for every
+   branch, every clock rate its format can have, every unit timestamp and every frame index, the timestamp handed to the
+   MPEG-TS writer is the exact conversion to 90 kHz of the position of that frame = unit timestamp + i frame lengths *)
+Theorem C24_ts_written_exact : forall k rate pts i,
+  branch_rate_ok k rate = true -> 0 <= i -> in_int64 pts -> in_int64 (i * branch_spf k) ->
+  in_int64 (frame_pos k pts i) -> in_int64 (conv (frame_pos k pts i) rate ts_rate) ->
+  ts_written protocols_mpegts__multiplyAndDivide k rate pts i = conv (frame_pos k pts i) rate ts_rate.
+Proof. exact ts_written_exact. Qed.
+Print Assumptions C24_ts_written_exact.
+
+Example C24_ts_written_example :
+  ts_written protocols_mpegts__multiplyAndDivide TsAC3 44100 (-1099511627776 - 777) 3 = -2243901273357 /\
+  conv (frame_pos TsAC3 (-1099511627776 - 777) 3) 44100 ts_rate = -2243901273357.
+Proof. exact ts_written_example. Qed.
+
+(* later frames never get an earlier timestamp *)
+Theorem C24_conv_monotone : forall v w rate, 0 < rate -> v <= w -> conv v rate ts_rate <= conv w rate ts_rate.
+Proof. exact conv_monotone. Qed.
+Print Assumptions C24_conv_monotone.
+
+(* conversion of a sum is not the sum of conversions: converting the unit timestamp and the frame length once and adding
+   (loop hoisting) writes AC-3 frame 2 of a 44.1 kHz unit one tick early *)
+Theorem C24_hoisted_conversion_refuted : exists rate pts i,
+  branch_rate_ok TsAC3 rate = true /\ 0 <= i /\
+  hoisted_written muldiv_w ac3_spf rate pts i <> conv (frame_pos TsAC3 pts i) rate ts_rate /\
+  hoisted_written muldiv_w ac3_spf rate pts i = conv (frame_pos TsAC3 pts i) rate ts_rate - 1.
+Proof. exact hoisted_refuted. Qed.
+Print Assumptions C24_hoisted_conversion_refuted.
+
+(* accumulating the truncated frame length drifts: 693 ticks after 1000 AC-3 frames at 44.1 kHz *)
+Theorem C24_accumulated_conversion_refuted :
+  conv (frame_pos TsAC3 0 1000) 44100 ts_rate - accumulated_written muldiv_w ac3_spf 44100 0 1000 = 693.
+Proof. exact accumulated_refuted. Qed.
+Print Assumptions C24_accumulated_conversion_refuted.
+
+(* how far apart the two can be for one addition: at most one tick *)
+Theorem C24_conv_sum_bounds : forall a b rate, 0 < rate -> 0 <= a -> 0 <= b ->
+  conv a rate ts_rate + conv b rate ts_rate <= conv (a + b) rate ts_rate <= conv a rate ts_rate + conv b rate ts_rate + 1.
+Proof. exact conv_sum_le. Qed.
+Print Assumptions C24_conv_sum_bounds.
